@@ -73,6 +73,18 @@ def scope_ok(codec, mods, c):
         return True
 
 
+def finding_region(codec, mod, t, v=None):
+    """Name of the open known-finding region of another property this (module, type) lies in, or None."""
+    m = binding(codec)
+    if m is None or not hasattr(m, 'why_out_of_scope'):
+        return None
+    try:
+        r = m.why_out_of_scope(mod, t, v)
+    except Exception:
+        return None
+    return r if isinstance(r, str) and r.startswith('finding') else None
+
+
 def pt_roundtrip(ctx, codec, c):
     """C01 on /repo.  Returns the encoding (bytes) when everything held, else None."""
     r = lib.attempt(lib.compile_string, c.text, codec, numeric_enums=c.numeric)
